@@ -518,6 +518,14 @@ pub fn gen_stream(bytes: &[u8], cfg: &GenCfg) -> Stream {
                 directives.push(Directive::Tag("!e!".into(), "tag:e.example,2000:".into()));
                 named = true;
             }
+            // re-target the secondary and the primary handle: `!!str` / `!t` then mean something else in
+            // this document — and only in this document
+            if ch.pick(10) == 9 {
+                directives.push(Directive::Tag("!!".into(), "tag:s.example,2000:".into()));
+            }
+            if ch.pick(12) == 11 {
+                directives.push(Directive::Tag("!".into(), "tag:p.example,2000:".into()));
+            }
             if ch.pick(16) == 15 {
                 directives.push(Directive::Reserved);
                 // several reserved directives in one document are legal too
@@ -636,7 +644,8 @@ pub enum Site {
     EntryLine { line_start: usize, indent: usize, first: bool, parent: isize },
     /// a continuation line of a multi-line flow collection; `block_n` = indentation of the enclosing block construct
     /// `plain_before`: a plain scalar was written inside the (outermost) flow collection before this line
-    FlowContLine { line_start: usize, indent: usize, block_n: isize, plain_before: bool },
+    /// `in_scalar`: the line continues a multi-line scalar (Some(quoted?)) rather than starting a token
+    FlowContLine { line_start: usize, indent: usize, block_n: isize, plain_before: bool, in_scalar: Option<bool> },
     /// a single-line plain scalar without properties in entry / value position of a block collection
     PlainValue { start: usize, len: usize, doc: usize },
     /// a single-line scalar without properties used as implicit key of a block mapping
@@ -704,7 +713,7 @@ impl<'a> Renderer<'a> {
             }
             self.out.push('\n');
             let extra = self.ch.pick(3);
-            self.sites.push(Site::FlowContLine { line_start: self.out.len(), indent: cont + extra, block_n: cont as isize - 1, plain_before: self.plain_in_flow });
+            self.sites.push(Site::FlowContLine { line_start: self.out.len(), indent: cont + extra, block_n: cont as isize - 1, plain_before: self.plain_in_flow, in_scalar: None });
             self.spaces(cont + extra);
             return;
         }
@@ -803,7 +812,7 @@ impl<'a> Renderer<'a> {
             }
             self.out.push('\n');
             let extra = self.ch.pick(3);
-            self.sites.push(Site::FlowContLine { line_start: self.out.len(), indent: cont + extra, block_n: cont as isize - 1, plain_before: self.plain_in_flow });
+            self.sites.push(Site::FlowContLine { line_start: self.out.len(), indent: cont + extra, block_n: cont as isize - 1, plain_before: self.plain_in_flow, in_scalar: None });
             self.spaces(cont + extra);
             return;
         }
@@ -811,13 +820,14 @@ impl<'a> Renderer<'a> {
         self.spaces(n.max(usize::from(min_one)));
     }
 
-    fn flow_scalar_text(&mut self, style: Style, lines: &[String], cont: usize) {
+    fn flow_scalar_text(&mut self, style: Style, lines: &[String], cont: usize, in_flow: bool) {
         let q = match style {
             Style::Single => "'",
             Style::Double => "\"",
             _ => "",
         };
         let open = self.out.len();
+        let was_plain_before = self.plain_in_flow;
         if q.is_empty() {
             self.plain_in_flow = true;
         }
@@ -826,6 +836,10 @@ impl<'a> Renderer<'a> {
             if i > 0 {
                 self.out.push('\n');
                 let extra = if self.rich { self.ch.pick(3) } else { 0 };
+                if in_flow && !l.is_empty() {
+                    // a continuation line of a scalar inside a flow collection is a line of that collection
+                    self.sites.push(Site::FlowContLine { line_start: self.out.len(), indent: cont + extra, block_n: cont as isize - 1, plain_before: was_plain_before, in_scalar: Some(!q.is_empty()) });
+                }
                 self.spaces(cont + extra);
             }
             self.out.push_str(l);
@@ -853,7 +867,7 @@ impl<'a> Renderer<'a> {
                 }
                 let lines: Vec<String> = if single_line { vec![lines.join(" ")] } else { lines.clone() };
                 // a single-line rendering of a two-line scalar keeps the same value (joined by one space)
-                self.flow_scalar_text(*style, &lines, cont);
+                self.flow_scalar_text(*style, &lines, cont, in_flow);
                 false
             }
             Kind::Seq { items, .. } => {
